@@ -156,7 +156,7 @@ func genFlag(r *Rng) uint32 {
 }
 
 type seqWeights struct {
-	set, del, incr, get, mget, meta, meta2, flush, tick, dump, advance, restart, gc, listing int
+	set, del, incr, get, mget, meta, meta2, flush, tick, dump, advance, restart, gc, listing, merge int
 }
 
 // genSeqPlan draws a single-client history with environment events (and, depending on the
@@ -355,8 +355,12 @@ func genSeqPlan(prop string, seed uint64, tier string) *Plan {
 	if r.Bool(1, 2) {
 		earlyRestart = r.Range(1, 5)
 	}
-	weights := []int{w.set, w.del, w.incr, w.get, w.mget, w.meta, w.meta2, w.flush, w.tick, w.dump, w.advance, w.restart, w.gc, w.listing}
-	kinds := []string{"set", "del", "incr", "get", "mget", "meta", "meta2", "flush", "tick", "dump", "advance", "restart", "gc", "list"}
+	switch prop {
+	case "C02", "C03", "C13", "C18", "C06", "C08":
+		w.merge = 2
+	}
+	weights := []int{w.set, w.del, w.incr, w.get, w.mget, w.meta, w.meta2, w.flush, w.tick, w.dump, w.advance, w.restart, w.gc, w.listing, w.merge}
+	kinds := []string{"set", "del", "incr", "get", "mget", "meta", "meta2", "flush", "tick", "dump", "advance", "restart", "gc", "list", "merge"}
 	idBase := 0
 	if bulk > 0 {
 		for k := 0; k < bulk; k++ {
